@@ -103,4 +103,19 @@ PROPS = {
         ],
         "kani": [{"set": "rules", "harnesses": ["wf_preserved"]}],
     },
+    "C04": {
+        "title": "precomputed attack tables equal ray/step attacks for every square and every occupancy; every unchecked lookup stays inside its table",
+        "units": [],
+        "deciding": [],
+        "owned": [],
+        "design_ref": "DESIGN.md §3 C04",
+        "level_text": "complete proof by CBMC/SAT: 64 rook + 64 bishop harnesses over a fully symbolic 64-bit occupancy each, 4 leaper-table harnesses over a symbolic square; loops of the ray oracle are bounded by the board width (unwind 9, unwinding assertions on); Kani checks every get_unchecked dereference, so an out-of-table index is a reported failure",
+        "technique": "Kani/CBMC full-domain harnesses on the real tables and the real lookup functions (constant tables are out of SMT reach), oracle written from the property statement",
+        "assumptions": [
+            "trusted: Kani's Rust->GOTO translation, CBMC 6.11, rustc const evaluation of the tables being what is linked",
+            "the ray/step oracle (kani/tables.rs) is the specification: written from the property statement (slide until first blocker, blocker included; step patterns clipped at the edge)",
+            "Magics::get_attacks indexes the outer array with get_unchecked(square): square < 64 is a precondition that call sites establish (C01/C05 units)",
+        ],
+        "kani": [{"set": "tables"}],
+    },
 }
